@@ -24,15 +24,16 @@ import (
 // worker side: one Unpack execution in a fresh arena
 
 type UnpackArg struct {
-	Entries []tarx.Entry `json:"entries"`
-	Dst     string       `json:"dst,omitempty"`   // spelling of dst: "" clean, "slash", "dot"
-	Allow   bool         `json:"allow,omitempty"` // AllowSymlinkTarget(<P>/allowed)
-	Cut     int          `json:"cut"`             // -1: whole stream; else stream ends/fails at this offset
-	Mode    string       `json:"mode,omitempty"`  // "eof" | "err"
-	Chunk   int          `json:"chunk,omitempty"`
-	Format  int          `json:"format,omitempty"`
-	Benign  bool         `json:"benign,omitempty"` // also run the variant whose last (link) entry has a harmless target
-	Prepop  bool         `json:"prepop,omitempty"` // dst already holds content: pre -> .. (link), predir/, prefile (0444), prelink -> ../dst-evil/t
+	Entries    []tarx.Entry `json:"entries"`
+	Dst        string       `json:"dst,omitempty"`         // spelling of dst: "" clean, "slash", "dot"
+	Allow      bool         `json:"allow,omitempty"`       // AllowSymlinkTarget(<P>/allowed)
+	AllowEmpty bool         `json:"allow_empty,omitempty"` // AllowSymlinkTarget("")
+	Cut        int          `json:"cut"`                   // -1: whole stream; else stream ends/fails at this offset
+	Mode       string       `json:"mode,omitempty"`        // "eof" | "err"
+	Chunk      int          `json:"chunk,omitempty"`
+	Format     int          `json:"format,omitempty"`
+	Benign     bool         `json:"benign,omitempty"` // also run the variant whose last (link) entry has a harmless target
+	Prepop     bool         `json:"prepop,omitempty"` // dst already holds content: pre -> .. (link), predir/, prefile (0444), prelink -> ../dst-evil/t
 }
 
 type LinkFact struct {
@@ -156,6 +157,9 @@ func runUnpackOnce(a unpackArena, arg UnpackArg, entries []tarx.Entry) (out Unpa
 	var opts []slug.PackerOption
 	if arg.Allow {
 		opts = append(opts, slug.AllowSymlinkTarget(a.Allowed))
+	}
+	if arg.AllowEmpty {
+		opts = append(opts, slug.AllowSymlinkTarget(""))
 	}
 	p, err := slug.NewPacker(opts...)
 	if err != nil {
@@ -295,22 +299,25 @@ func unpackAlphabet(full bool) []tarx.Entry {
 		{Name: "../dst-evil/t", Kind: "link", Target: "a", Raw: 040700},
 	}
 	if !full {
-		incons = incons[:2]
+		incons = append(incons[:2:2], incons[4]) // + a regular entry whose mode field carries symlink type bits
 	}
 	es = append(es, incons...)
+	// hard-link entries naming an earlier entry (unsupported today: must stay refused, or at least harmless)
+	es = append(es, tarx.Entry{Name: "h", Kind: "hard", Target: "a/up"}, tarx.Entry{Name: "h", Kind: "hard", Target: "y"})
 	return es
 }
 
 type unpackCfg struct {
-	Dst    string
-	Allow  bool
-	UID    int
-	Chunk  int
-	Prepop bool
+	Dst        string
+	Allow      bool
+	AllowEmpty bool // AllowSymlinkTarget(""): must allow nothing
+	UID        int
+	Chunk      int
+	Prepop     bool
 }
 
 func (c unpackCfg) String() string {
-	return fmt.Sprintf("dst=%q allow=%v uid=%d chunk=%d prepopulated=%v", c.Dst, c.Allow, c.UID, c.Chunk, c.Prepop)
+	return fmt.Sprintf("dst=%q allow=%v allow-empty-entry=%v uid=%d chunk=%d prepopulated=%v", c.Dst, c.Allow, c.AllowEmpty, c.UID, c.Chunk, c.Prepop)
 }
 
 // classifyOutside gives the attribution signature of an outside change from
@@ -392,6 +399,7 @@ func RunUnpackSafety(id, tier string) int {
 			{unpackCfg{Dst: "rel"}, false, 3, true},
 			{unpackCfg{Dst: "link"}, false, 3, true},
 			{unpackCfg{Allow: true}, true, 2, true},
+			{unpackCfg{AllowEmpty: true}, true, 2, true},
 			{unpackCfg{Allow: true, UID: 65534}, false, 3, true},
 			{unpackCfg{Chunk: 1}, true, 2, true},
 			{unpackCfg{Prepop: true}, true, 2, true},
@@ -405,6 +413,7 @@ func RunUnpackSafety(id, tier string) int {
 			{unpackCfg{UID: 65534}, true, 2, true},
 			{unpackCfg{Dst: "slash"}, false, 2, true},
 			{unpackCfg{Allow: true}, false, 2, true},
+			{unpackCfg{AllowEmpty: true}, false, 2, true},
 			{unpackCfg{Prepop: true}, false, 2, true},
 			{unpackCfg{}, false, 3, true},
 			{unpackCfg{Dst: "slash"}, false, 3, true},
@@ -495,7 +504,7 @@ func RunUnpackSafety(id, tier string) int {
 					es[j] = alpha[o]
 				}
 				last := es[len(es)-1]
-				args[i] = UnpackArg{Entries: es, Dst: pl.cfg.Dst, Allow: pl.cfg.Allow, Cut: -1, Chunk: pl.cfg.Chunk, Prepop: pl.cfg.Prepop,
+				args[i] = UnpackArg{Entries: es, Dst: pl.cfg.Dst, Allow: pl.cfg.Allow, AllowEmpty: pl.cfg.AllowEmpty, Cut: -1, Chunk: pl.cfg.Chunk, Prepop: pl.cfg.Prepop,
 					Benign: id == "C04" && last.Kind == "link" && lexEscapes(last.Name, last.Target) && !(pl.cfg.Allow && strings.Contains(last.Target, "allowed"))}
 				return args[i]
 			}, func(i int, r core.Result) {
